@@ -138,7 +138,7 @@ func (g *gen) ctxFor(op *Op, cancelP, deadlineP float64) {
 		op.CancelW = pick(g.r, 0.3, 0.1, 0.03, 0.01)
 	case x < cancelP+deadlineP:
 		op.Ctx = "deadline"
-		op.DeadlineMs = pick(g.r, 1, 10, 50, 1000)
+		op.DeadlineMs = pick(g.r, 0, 1, 10, 50, 1000)
 	default:
 		op.Ctx = "bg"
 	}
@@ -195,6 +195,11 @@ func (g *gen) genCore(profile string) {
 	hangP, errP := 0.12, 0.2
 	cancelP, deadlineP := 0.15, 0.1
 	switch profile {
+	case "C01":
+		// other calls of every kind share the nodes (and the per-node routing tables)
+		if g.chance(0.5) {
+			kinds = []string{"qc", "async", "qc", "async", "rpc", "ucast", "mcast", "corr"}
+		}
 	case "C02":
 		cancelP, deadlineP = 0.4, 0.15
 	case "C05":
@@ -233,5 +238,20 @@ func (g *gen) genCore(profile string) {
 			}
 		}
 		g.prog.Threads = append(g.prog.Threads, th)
+	}
+	if profile == "C05" && g.chance(0.3) {
+		// connections that break (and come back) while calls are outstanding: answers must
+		// still arrive at most once per node
+		g.cfg.FaultFree = false
+		for k := 1 + g.r.IntN(3); k > 0; k-- {
+			si := g.r.IntN(g.cfg.NServers)
+			a := 30 + g.r.IntN(500)
+			switch pick(g.r, "reset", "crash") {
+			case "reset":
+				g.prog.Faults = append(g.prog.Faults, &Fault{Kind: "reset", Srv: si, Mgr: -1, AtStep: a})
+			case "crash":
+				g.prog.Faults = append(g.prog.Faults, &Fault{Kind: "crash", Srv: si, Mgr: -1, AtStep: a}, &Fault{Kind: "restart", Srv: si, AtStep: a + 1 + g.r.IntN(200)})
+			}
+		}
 	}
 }
